@@ -15,11 +15,15 @@ for run in range(runs):
     wal = WriteAheadLog("wal", sync_policy=pol, write_latency=rng.choice([0.0001, 0.0003]), sync_latency=rng.choice([0.0005, 0.001]))
     lsm = LSMTree("lsm", memtable_size=rng.randint(2, 5), sstable_write_latency=rng.choice([0.0005, 0.05, 0.5]), wal=wal)
     writes = {}          # seq -> (key, value)
-    orig = wal.append
+    issued, applied, tick = {}, {}, [0]      # real-time order: when the append was issued / when it returned (the
+    orig = wal.append                        # memtable apply follows the return with no wait in between)
     def traced(key, value, _o=orig):
         seq = wal._next_sequence
         writes[seq] = (key, value)
-        return (yield from _o(key, value))
+        tick[0] += 1; issued[seq] = tick[0]
+        r = yield from _o(key, value)
+        tick[0] += 1; applied[seq] = tick[0]
+        return r
     wal.append = traced
     class W(Entity):
         def __init__(self, name, ops): super().__init__(name); self.ops = ops
@@ -45,9 +49,15 @@ for run in range(runs):
         durable = [s for s, (kk, _) in writes.items() if kk == k and s <= synced]
         if not durable:
             continue
-        allowed = {(None if v is _TOMBSTONE else v) for s, (kk, v) in writes.items() if kk == k and s >= max(durable)}
+        # a write is ruled out only if a DURABLE write to the same key was issued after it had been applied
+        # (real-time order).  Two writes that overlap in time may take effect in either order: the tree applies
+        # writes in the order their log appends return, which is not sequence order when only some appends sync.
+        # (The first version of this oracle used sequence order and so demanded more than the property states.)
+        INF = float("inf")
+        allowed = {(None if v is _TOMBSTONE else v) for s, (kk, v) in writes.items() if kk == k
+                   and not any(applied.get(s, INF) < issued[d] for d in durable)}
         if first[k] not in allowed:
             bad += 1
-            print("run", run, type(pol).__name__, "key", k, "reads", first[k], "latest durable write", writes[max(durable)], "seq", max(durable), "synced_up_to", synced)
+            print("run", run, type(pol).__name__, "key", k, "reads", first[k], "allowed", sorted(map(str, allowed)), "durable seqs", durable, "synced_up_to", synced)
             break
 print("runs", runs, "violating runs", bad)
